@@ -29,12 +29,12 @@ PLAN = {
     "C06": dict(engine="vsim", level="fault_enumeration", extra=["vproc", "vstore"]),
     "C07": dict(engine="vsim", level="exploration", extra=["vproc"]),
     "C08": dict(engine="vsim", level="exploration"),
-    "C09": dict(engine="vsim", level="exploration", extra=["vproc"]),
-    "C10": dict(engine="vsim", level="exploration"),
+    "C09": dict(engine="vsim", level="exploration", extra=["vproc", "vfront"]),
+    "C10": dict(engine="vsim", level="exploration", extra=["vfront"]),
     "C11": dict(engine="vsim", level="exploration", extra=["vconc", "vproc"]),
     "C12": dict(engine="vconc", level="exploration", race=True, extra=["vproc", "vfront"]),
     "C13": dict(engine="vproc", level="exploration", server=True),
-    "C14": dict(engine="vsim", level="exploration", extra=["vproc"]),
+    "C14": dict(engine="vsim", level="exploration", extra=["vproc", "vfront"]),
     "C15": dict(engine="vfront", level="exploration"),
     "C16": dict(engine="vstore", level="fault_enumeration"),
     "C17": dict(engine="vstore", level="exploration"),
